@@ -171,7 +171,21 @@ def build_signal(case):
                                  "capacity": vt["capacity"]}
     rating = total * rng.choice([1.0, 1.5, 3.0]) + 5.0
     gc = {"max_power": rating, "voltage_level": "MV", "cost": {"type": "fixed", "value": 0.3}}
-    if binding and total > 0:
+    limit_mode = binding and total > 0 and strat == "peak_load_window" and rng.random() < 0.5
+    if limit_mode:
+        # the headroom binds through grid-operator limit signals (lowered, later raised again) instead of a fixed load
+        cur = rating
+        for t in range(n_steps):
+            want = round(share[t] * total + 0.01, 6) if share[t] < 1 else rating
+            if want != cur:
+                ev["grid_operator_signals"].append({
+                    "signal_time": scen.iso(start - datetime.timedelta(hours=1)),
+                    "start_time": scen.iso(start + t * dt - datetime.timedelta(minutes=rng.choice([0, 0, 1]))),
+                    "grid_connector_id": "GC1", "max_power": want})
+                cur = want
+        meta["binding_steps"] = [t for t in range(n_steps) if share[t] < 1]
+        meta["headroom"] = [round(share[t] * total + 0.01, 6) if share[t] < 1 else rating for t in range(n_steps)]
+    elif binding and total > 0:
         # headroom_t = rating - fixed_t = share_t * station power (+ a little) where the connector binds
         ev["fixed_load"]["building"] = {
             "start_time": scen.iso(start), "step_duration_s": interval * 60, "grid_connector_id": "GC1",
@@ -250,8 +264,9 @@ def replan_suffices(full, m):
     dt_h = full["meta"]["interval"] / 60.0
     steps = [t for t in range(m["a"], m["d"]) if m["enc"][t]]
     rem = 1.15 * m["need"] * cs_power * dt_h          # energy of `need` full-power steps, with margin
+    hr = full["meta"].get("headroom")
     for i, t in enumerate(steps):
-        head = rating - (fixed[t] if fixed and t < len(fixed) else 0.0)
+        head = hr[t] if hr and t < len(hr) else rating - (fixed[t] if fixed and t < len(fixed) else 0.0)
         cap = max(0.0, min(cs_power, head))
         p = min(rem / ((len(steps) - i) * dt_h), cap)
         rem -= p * dt_h
